@@ -9,13 +9,13 @@ edit mode) and its `CommandStack`, as coded in `glue/core/command.py` (`CommandS
 Versions.  The command stack is parametrised by a command semantics `Sem` (what `cmd.do` and
 `cmd.undo` do to the session):
 * `Impl` — the code **with** `fix: F4-apply-undo-created-group` (`ApplySubsetState/ApplyROI.undo` =
-  `_restore_subsets`); `AddData` / `RemoveData` as they are coded (no fix): `undo` of `AddData` is
-  an unconditional `remove`, `undo` of `RemoveData` is `append` (at the end of the collection);
-* `Old` — the code before the fix (delete the subsets that are not in `old_states`, restore the
-  recorded per-subset states; nothing about groups or `edit_subset`);
-* `Ideal` — `Impl` with `AddData` / `RemoveData` as the property demands them (they remember whether
-  the dataset was present and where): not in /repo, it is the reference for which the refinement
-  theorem holds without any hypothesis on the history.
+  `_restore_subsets`) and `fix: F4b-add-remove-data-undo` (`AddData.do` records whether the dataset
+  was absent and `undo` removes it only then; `RemoveData.do` records the position of the dataset,
+  `None` if it was absent, and `undo` puts it back there with `DataCollection.insert`);
+* `PreF4b` — the code with the first fix only: `undo` of `AddData` is an unconditional `remove`,
+  `undo` of `RemoveData` an unconditional `append` (at the end of the collection);
+* `Old` — the code before both fixes (delete the subsets that are not in `old_states`, restore the
+  recorded per-subset states; nothing about groups or `edit_subset`).
 
 Abstraction of object identity.
 * datasets: natural numbers `0 … nData-1` (they exist before and after being in the collection);
@@ -163,9 +163,11 @@ structure Saved where
   groups : List (Nat × Sel)
   sgCount : Nat
   edit : List Nat
-  /-- only recorded by the `Ideal` `AddData` / `RemoveData`: was the dataset in the collection? -/
+  /-- recorded by `AddData.do` (`not self._added`) and `RemoveData.do` (`self._index is not None`)
+  of the repaired code: was the dataset in the collection? -/
   present : Bool := false
-  /-- only recorded by the `Ideal` `RemoveData`: the position of the dataset in the collection. -/
+  /-- recorded by `RemoveData.do` of the repaired code: `self._index`, the position of the dataset
+  in the collection (meaningful only if `present`). -/
   index : Nat := 0
   deriving DecidableEq, Repr
 
@@ -186,18 +188,6 @@ def save (b : Body) : Saved :=
     groups := b.groups.map fun g => (g.id, g.state),
     sgCount := b.sgCount,
     edit := b.edit }
-
-/-- `cmd.do(session)`: the new session and what the command recorded. -/
-def cmdDo : CmdSpec → Body → Body × Saved
-  | .addData d, b => (appendData d b, Saved.empty)
-  | .removeData d, b => (removeData d b, Saved.empty)
-  | .apply k ov, b =>
-    -- `if override_mode is None and len(mode._edit_subset) == 0: override_mode = ReplaceMode`
-    let ov' : Option Mode := match ov with
-      | some m => some m
-      | none => if b.edit = [] then some .replace else none
-    (combineData (.atom k) (ov'.getD b.mode) b, save b)
-  | .applyRoi k, b => (combineData (.atom k) b.mode b, save b)
 
 /-- `grp.subset_state = state` for the recorded `(grp, state)` pair of group `g`, if there is one. -/
 def restoreGroup (sv : List (Nat × Sel)) (g : Group) : Group :=
@@ -230,36 +220,56 @@ def restoreOld (sv : Saved) (b : Body) : Body :=
                 if d ∈ b.datasets then (b.dsubs d).filter (fun g => keys.contains (d, g)) else b.dsubs d }
   sv.subs.foldl (fun b e => setState e.2.1 (fun _ => e.2.2) b) b1
 
-/-- `cmd.undo(session)`. -/
-def cmdUndo (fixed : Bool) (c : Cmd) (b : Body) : Body :=
-  match c.spec with
-  | .addData d => removeData d b
-  | .removeData d => appendData d b
-  | .apply _ _ => if fixed then restore c.saved b else restoreOld c.saved b
-  | .applyRoi _ => if fixed then restore c.saved b else restoreOld c.saved b
-
-/-! ### `AddData` / `RemoveData` as the property demands them (`Ideal`, not in /repo) -/
-
-/-- put dataset `d` back at position `i` of the collection (every live group adds its subset). -/
+/-- `DataCollection.insert(i, d)` (added by `fix: F4b`; `append(d)` is `insert(len(_data), d)`):
+no-op if present; `_data.insert(i, d)` — Python clamps a position beyond the end to the end —, then
+the `DataCollectionAddMessage`: every live group attaches one new `GroupedSubset` to `d`. -/
 def insertData (i d : Nat) (b : Body) : Body :=
   if d ∈ b.datasets then b
-  else { b with datasets := b.datasets.insertIdx i d, dsubs := upd b.dsubs d (b.dsubs d ++ liveIds b) }
+  else { b with datasets := b.datasets.insertIdx (min i b.datasets.length) d,
+                dsubs := upd b.dsubs d (b.dsubs d ++ liveIds b) }
 
-/-- `AddData.do` also records whether the dataset was already there; `RemoveData.do` whether and
-where it was. -/
-def Ideal.cmdDo : CmdSpec → Body → Body × Saved
+/-- the selection commands' `do` (both versions of `AddData` / `RemoveData` share it). -/
+def applyDo (k : Nat) (ov : Option Mode) (b : Body) : Body × Saved :=
+  -- `if override_mode is None and len(mode._edit_subset) == 0: override_mode = ReplaceMode`
+  let ov' : Option Mode := match ov with
+    | some m => some m
+    | none => if b.edit = [] then some .replace else none
+  (combineData (.atom k) (ov'.getD b.mode) b, save b)
+
+/-- `cmd.do(session)`: the new session and what the command recorded.  `AddData.do`:
+`self._added = self.data not in dc; dc.append(self.data)`; `RemoveData.do`: `self._index =
+dc.index(self.data) if self.data in dc else None; dc.remove(self.data)`. -/
+def cmdDo : CmdSpec → Body → Body × Saved
   | .addData d, b => (appendData d b, { Saved.empty with present := b.datasets.contains d })
   | .removeData d, b =>
     (removeData d b, { Saved.empty with present := b.datasets.contains d, index := b.datasets.idxOf d })
-  | sp, b => C13Undo.cmdDo sp b
+  | .apply k ov, b => applyDo k ov b
+  | .applyRoi k, b => (combineData (.atom k) b.mode b, save b)
 
-/-- `AddData.undo` removes the dataset only if the command added it; `RemoveData.undo` puts the
-dataset back where it was, and only if the command removed it. -/
-def Ideal.cmdUndo (c : Cmd) (b : Body) : Body :=
+/-- `cmd.undo(session)` (`fixed`: with / without `fix: F4` for the selection commands).
+`AddData.undo`: `if self._added: dc.remove(self.data)`; `RemoveData.undo`: `if self._index is not
+None: dc.insert(self._index, self.data)`. -/
+def cmdUndo (fixed : Bool) (c : Cmd) (b : Body) : Body :=
   match c.spec with
   | .addData d => if c.saved.present then b else removeData d b
   | .removeData d => if c.saved.present then insertData c.saved.index d b else b
-  | _ => C13Undo.cmdUndo true c b
+  | .apply _ _ => if fixed then restore c.saved b else restoreOld c.saved b
+  | .applyRoi _ => if fixed then restore c.saved b else restoreOld c.saved b
+
+/-! ### `AddData` / `RemoveData` before `fix: F4b-add-remove-data-undo` (`PreF4b`, `Old`) -/
+
+/-- `AddData.do = dc.append`, `RemoveData.do = dc.remove`, nothing recorded. -/
+def PreF4b.cmdDo : CmdSpec → Body → Body × Saved
+  | .addData d, b => (appendData d b, Saved.empty)
+  | .removeData d, b => (removeData d b, Saved.empty)
+  | sp, b => C13Undo.cmdDo sp b
+
+/-- `AddData.undo = dc.remove`, `RemoveData.undo = dc.append`, unconditionally. -/
+def PreF4b.cmdUndo (fixed : Bool) (c : Cmd) (b : Body) : Body :=
+  match c.spec with
+  | .addData d => removeData d b
+  | .removeData d => appendData d b
+  | _ => C13Undo.cmdUndo fixed c b
 
 /-! ## The command stack -/
 
@@ -320,12 +330,12 @@ def run (S : Sem) (st : State) (w : List Op) : State := w.foldl (fun st op => (S
 
 end Sem
 
-/-- the code with `fix: F4-apply-undo-created-group`. -/
+/-- the code as it is: with `fix: F4-apply-undo-created-group` and `fix: F4b-add-remove-data-undo`. -/
 def Impl : Sem := ⟨cmdDo, cmdUndo true⟩
-/-- the code before the fix. -/
-def Old : Sem := ⟨cmdDo, cmdUndo false⟩
-/-- `Impl` with `AddData` / `RemoveData` as the property demands them. -/
-def Ideal : Sem := ⟨Ideal.cmdDo, Ideal.cmdUndo⟩
+/-- the code with the first fix only (`AddData` / `RemoveData` undone unconditionally, at the end). -/
+def PreF4b : Sem := ⟨PreF4b.cmdDo, PreF4b.cmdUndo true⟩
+/-- the code before both fixes. -/
+def Old : Sem := ⟨PreF4b.cmdDo, PreF4b.cmdUndo false⟩
 
 /-! ## Non-command set-up of a session (what the harness does before the history starts) -/
 
@@ -401,11 +411,12 @@ def wfOk (b : Body) : Bool :=
   b.datasets.all (fun d => b.dsubs d == liveIds b) &&
   (List.range b.nData).all (fun d => b.datasets.contains d || (b.dsubs d).isEmpty)
 
-/-! ## Which commands the code as it is undoes exactly
+/-! ## Which commands the code before `fix: F4b` undid exactly
 
-`AddData(d)` of a dataset that is already in the collection does nothing, but its `undo` removes
-the dataset; `RemoveData(d)` of an absent dataset does nothing, but its `undo` appends it;
-`RemoveData.undo` re-appends at the *end* of the collection.  `clean` excludes exactly these. -/
+Before the fix `AddData(d)` of a dataset that is already in the collection did nothing, but its
+`undo` removed the dataset; `RemoveData(d)` of an absent dataset did nothing, but its `undo`
+appended it; `RemoveData.undo` re-appended at the *end* of the collection.  `clean` excludes
+exactly these (it is the hypothesis under which `PreF4b` refines the zipper; `Impl` needs none). -/
 def clean (sp : CmdSpec) (b : Body) : Bool :=
   match sp with
   | .addData d => !b.datasets.contains d
